@@ -220,7 +220,8 @@ def rand_instance(rng):
     names = [(a, rand_text(rng, 10, 0.2)) for a in nameids]
     counts = None
     if rng.random() < 0.2:   # the three counts are copied, they need not agree with the ballots
-        counts = (rng.randint(0, 10 ** 6), rng.randint(0, 10 ** 20), rng.randint(0, 50))
+        # (num_alternatives stays small: a writer that loops over range(num_alternatives) must not cost gigabytes)
+        counts = (rng.randint(0, 40), rng.randint(0, 10 ** 20), rng.randint(0, 50))
     pl = simple_instance(om, dt, names=names, fields=fields, counts=counts)
     if rng.random() < 0.35 and len(pl[6]) > 1:     # multiplicity key order decoupled from the orders list
         mu = list(pl[6])
@@ -381,7 +382,29 @@ def dirty_text(rng):
     return dt, body
 
 
+def _sweep_stale_tmp(max_age_s=900):
+    """workers killed by the watchdog cannot remove their scratch directory; remove old ones here"""
+    import glob
+    import time
+    now = time.time()
+    for d in glob.glob(os.path.join(WORK, "c01_*")):
+        try:
+            if now - os.path.getmtime(d) > max_age_s:
+                shutil.rmtree(d, ignore_errors=True)
+        except OSError:
+            pass
+
+
 def generate(tier, seed):
+    _sweep_stale_tmp()
+    out = _generate(tier, seed)
+    only = os.environ.get("VERIF_C01_OPS")          # debugging aid: comma-separated ops to keep
+    if only:
+        out = [c for c in out if c["op"] in only.split(",")]
+    return out
+
+
+def _generate(tier, seed):
     rng = random.Random(1000003 * seed + 1)
     out = []
     quick = tier == "quick"
@@ -587,6 +610,9 @@ def impl_file(c):
         base = "w." + dt
         p1 = os.path.join(d, base)
         inst.write(p1)
+        if os.path.getsize(p1) > 2000000:
+            return {"crash": "write() produced a file of %d bytes for an instance with %d ballots and %d names"
+                             % (os.path.getsize(p1), len(inst.orders), len(inst.alternatives_name))}
         text1 = _read(p1)
         after = dump_instance(inst)
         # (b) re-parse through every entry point, (c) write each re-parsed instance again
